@@ -83,7 +83,9 @@ CLAIMS = {
              "(C05_substring_ascii: substring_match_ascii succeeds iff the needle occurs contiguously in the normalized haystack and its first reported index is the leftmost "
              "occurrence whose first character earns the highest bonus - acceptance test = occurrence for every prefilter shape the code selects, scan invariant, the specification's "
              "fold characterised; its one-character instance is C04_one_char_optimum_ascii) and for code-point haystacks (C05_substring_unicode: substring_match_non_ascii behind the "
-             "non-ASCII prefilter, needles of at least two characters, no normalisation hypothesis; the one-character instance is C04_one_char_optimum_unicode). K1 is a KNOWN-FINDING."),
+             "non-ASCII prefilter, needles of at least two characters, no normalisation hypothesis; the one-character instance is C04_one_char_optimum_unicode); at the substring_match "
+             "entry point (companion file C05_Entry) every branch of the dispatch - needle longer than the haystack, equal lengths, the ASCII scan, the code-point scan behind its "
+             "prefilter - decides 'the needle occurs contiguously in the normalized haystack' (C05_substring_entry_ascii / _unicode, needles of at least two characters). K1 is a KNOWN-FINDING."),
     "C10": dict(
         technique="Lean 4 theorem over all sizes about the translated slab layout + run-time extents hook + overflow-checked correspondence with poisoned slab",
         text="Theorem (all window and needle lengths, both character sizes): the five views MatrixSlab::alloc hands out are inside the slab, pairwise disjoint and aligned; view and layout "
